@@ -44,7 +44,10 @@ def main(args) -> int:
             # E2's abort faults fire at the k-th crossing of a seam inside pyrefact, and how often
             # pyrefact crosses a seam depends on *its* hash seed (set iteration inside the matcher);
             # subject and harness share one interpreter there, so that configuration keeps the seed.
-            second_seed = "0" if (eng == "e2_history" and "faults" in kwargs) else "12345"
+            # The same holds for the two-trees profile, which draws tiny cache sizes: with a one-entry
+            # parse cache fix_starred_imports gives incomplete expansions that follow pyrefact's own set
+            # order (an effect of the altered sizes, which never counts as a violation, see DESIGN 10.4).
+            second_seed = "0" if (eng == "e2_history" and ("faults" in kwargs or "trees" in kwargs)) else "12345"
             a = _digests(eng, args.n, 16, "0", kwargs)
             b = _digests(eng, args.n, 5, second_seed, kwargs)
             diff = [s for s in a if a[s] != b.get(s)]
